@@ -65,6 +65,8 @@ def _trim(draw):
         return [[draw(st.integers(1, 15)) / 16.0, draw(st.integers(1, 15)) / 16.0] for _ in range(n)]
     if kind == "freeform":
         pts = loop_pts(draw(st.integers(3, 6)))
+        if draw(st.integers(0, 3)) == 0:
+            return {"kind": kind, "pts": pts, "sense": sense}          # an open polyline is data like any other
         return {"kind": kind, "pts": pts + [pts[0]], "sense": sense}
     if kind in ("spline", "nurbs"):
         p = draw(st.integers(1, 2))
